@@ -65,6 +65,8 @@ def _strategy():
             case['earlier'] = ['close', 'write', 'read'][delta % 3]
         if case['via'] == 'wsgi' and delta % 11 == 0:
             case['second_object'] = ['copy', 'request'][delta % 2]
+            if anycl % 2:
+                case['interleave'] = anycl % 50
         if reassign and case['via'] == 'wsgi' and maxb is None:
             case['reassign'] = reassign
             case['first_read'] = first_read
@@ -138,6 +140,17 @@ def _read_wsgi(case, stream):
             # a second request object over the same environ (a hook, a nested component, copy()): it presents the same body, whatever the first one has read
             r2 = rq.copy() if case['second_object'] == 'copy' else ombott.Request(rq.environ)
             seen['b3'] = r2.body.read()
+            if case.get('interleave') is not None:
+                # reads through the two objects interleaved: a part through the first, everything through the second, then the first one from the start again
+                # (through the file object obtained at the start: after copy() the application's request object may be bound to the copy - open finding K10-copy)
+                f1.seek(0)
+                part = f1.read(case['interleave'])
+                mid = r2.body.read()
+                f1.seek(0)
+                again = f1.read()
+                f2 = r2.body
+                f2.seek(0)
+                seen['inter'] = (part == b1[:case['interleave']], mid == b1, again == b1, f2.read() == b1)
         seen['spilled'] = type(rq.body).__name__ != 'BytesIO'
         return b1
 
@@ -160,6 +173,9 @@ def _read_wsgi(case, stream):
         raise CheckFailure(f'second access to request.body differs: {seen.get("b1")!r} vs {seen.get("b2")!r}')
     if case.get('second_object') and seen.get('b3') != seen.get('b1'):
         raise CheckFailure(f'a second request object over the same environ ({case["second_object"]}) presents {len(seen.get("b3") or b"")} body bytes, the first one {len(seen.get("b1") or b"")}')
+    if case.get('interleave') is not None and seen.get('inter') != (True, True, True, True):
+        raise CheckFailure(f'reads interleaved between two request objects over one body ({case["second_object"]}, {len(seen.get("b1") or b"")} bytes, first {case["interleave"]} read through the first object, '
+                           f'then all through the second, then the first from the start): (part, second, first again, second again) correct = {seen.get("inter")}')
     if r.body != seen.get('b1') and (case.get('method') or 'POST') != 'HEAD':
         raise CheckFailure('echoed body differs from what the handler read')
     return seen['b1'], seen['spilled']
@@ -408,6 +424,12 @@ def run(ctx):
                     for first in (None, 0, 7, 100):
                         ctx.guarded(check_case, {'data': bytes(65 + i % 26 for i in range(n_)) + b'##', 'cl': n_, 'buf': buf, 'pattern': [9], 'via': 'wsgi', 'ctype': None, 'second_object': so,
                                                  'first_read': first})
+        for so in ('copy', 'request'):
+            for n_ in (40, 3000, 9000, 70000):
+                for buf in (8, 102400):
+                    for k in (0, 1, 16, 5000):
+                        ctx.guarded(check_case, {'data': bytes(65 + (i * 7) % 26 for i in range(n_)) + b'##', 'cl': n_, 'buf': buf, 'pattern': [4096], 'via': 'wsgi', 'ctype': None, 'second_object': so,
+                                                 'interleave': k})
         ctx.count('second_request_object_grid')
         for kind in ('rawio', 'frag'):
             for n_ in (5, 40, 2048):
